@@ -189,11 +189,66 @@ def run_subset(case, agg):
     do_merge(_mpi(), case["base"], case["offs"], agg, h8("msub", case), f"{case}")
 
 
+# -- the real CLI (argument parsing: flags, address syntax, repeated --file) ------------------------------------
+
+def cli_cases(tier):
+    out = []
+    for i, (dp, iu, sv) in enumerate(itertools.product((False, True), (False, True), SIGV)):
+        out.append({"kind": "generate", "dp": dp, "iu": iu, "sv": sv, "addr": (4096, "0x1000", "0X1000", "0o10000")[i % 4], "size": ("48", "0x40")[i % 2],
+                    "v": ("nordicsemi.com", "Acme Corp", "")[i % 3], "c": ("nRF54H20_sample_root", "class with spaces", "")[(i // 3) % 3]})
+    for files in (0, 1, 3):
+        for addr in ("8192", "0x2000"):
+            out.append({"kind": "merge", "files": files, "addr": addr})
+    return out
+
+
+def run_cli(case, agg):
+    from .. import impl
+    with fresh_dir("c12cli") as d:
+        out = os.path.join(d, "o.hex")
+        if case["kind"] == "generate":
+            args = ["mpi", "generate", "--output-file", out, "--vendor-name", case["v"], "--class-name", case["c"], "--address", str(case["addr"]), "--size", case["size"]]
+            if case["dp"]:
+                args.append("--downgrade-prevention-enabled")
+            if case["iu"]:
+                args.append("--independent-updates")
+            if case["sv"]:
+                args += ["--signature-verification", case["sv"]]
+            rc, so, se = impl.cli(args, d)
+            if rc != 0:
+                agg.viol("C12:cli/generate-failed", f"{case}: rc={rc} {se[-300:]}")
+                return
+            mem = refhex.read_hex_file(out)
+            size = int(case["size"], 0)
+            rec = ref_record(case["v"], case["c"], case["dp"], case["iu"], case["sv"]).ljust(size, b"\xff")
+            if mem != {0x1000 + i: b for i, b in enumerate(rec)}:
+                agg.viol("C12:cli/generate-record", f"{case}: {[(hex(a), b[:48].hex()) for a, b in refhex.regions(mem)][:2]} expected 0x1000: {rec[:48].hex()}")
+                return
+        else:
+            offs = [0, 96, 336][:case["files"]]
+            args = ["mpi", "merge", "--output-file", out, "--address", case["addr"], "--size", str(AREA)]
+            for n, off in enumerate(offs):
+                f = os.path.join(d, f"r{n}.hex")
+                refhex.write_hex([(0x2000 + off, rec_bytes(n))], f)
+                args += ["--file", f]
+            rc, so, se = impl.cli(args, d)
+            if rc != 0:
+                agg.viol("C12:cli/merge-failed", f"{case}: rc={rc} {se[-300:]}")
+                return
+            mem = refhex.read_hex_file(out)
+            want = ref_merge(0x2000, offs)
+            if mem != {0x2000 + i: b for i, b in enumerate(want)}:
+                agg.viol("C12:cli/merge-area", f"{case}: regions {[(hex(a), len(b)) for a, b in refhex.regions(mem)][:3]} expected 0x2000+{len(want)}")
+                return
+    agg.ok(h8("c12cli", case), f"ok:cli:{case['kind']}", sample=case if case.get("files") == 3 or case.get("sv") == "update" else None)
+
+
 def plan(tier):
     return [
         CaseStage("generate", lambda: gen_cases(tier), run_gen, disjoint=True, rule="policies x names x addresses x sizes"),
         BfsStage("merge-histories", merge_init, merge_step, max_depth=2 if tier == "quick" else 3,
                  rule="placement histories over 23 placements x 3 area addresses"),
+        CaseStage("cli", lambda: cli_cases(tier), run_cli, rule="real CLI: 12 flag combinations x address/size syntax x names; merge with 0/1/3 --file"),
         CaseStage("merge-subsets", lambda: subset_cases(tier), run_subset, disjoint=True,
                   rule="all 2^8 subsets of aligned placements (+ each single faulty placement in thorough)"),
     ]
